@@ -173,6 +173,8 @@ def build(sp, omit=(), labels=None, originals=None, into=None):
         s.domain = make_domain(sp)
     for name, table, vals in (('rho', s.density, sp['rho']), ('d', s.diameter, sp['d'])):
         todo = [t for t in sp['types'] if '%s:%s' % (name, t) not in omit]
+        if (spec_hash(sp) // 20) % 2 == 1:
+            todo = todo[::-1]               # the order of the assignment statements is the user's business, not the type list's
         if st == 'grouped':
             # types that share a value are assigned in one statement through a list (or tuple) key
             seen = []
@@ -314,7 +316,7 @@ def gen_pot(rng, sig, allow=('HS', 'HS', 'HCLJ', 'EXP', 'LJ', 'WCA'), strength=0
         # the user states the contact distance on the potential itself: equal to the mean diameter or one grid step larger
         ps['sigma'] = float(sig + (explicit_sigma if rng.random() < 0.5 else 0.0))
     if pt in ('HS', 'HCLJ', 'EXP') and rng.random() < 0.15:
-        ps['hv'] = float(rng.choice([1e5, 1e8]))
+        ps['hv'] = float(rng.choice([1e5, 1e8, 4.0, 2.5]))          # incl. shoulders of a few kT (penetrable cores)
     return ps
 
 
